@@ -92,6 +92,12 @@ def _worker(arg):
                 if len(o_) == 2 and re.match(r'^(0x[0-9a-f]+|\d+)$', o_[1]) and 0xC0 <= int(o_[1], 0) <= 0xFF:
                     th_.append((a_, int(o_[1], 0), asmint.JCC[insns[i_['next']]['mn']]))
         r['hi_tests'] = th_
+        # instruction-set extensions used (first witness per class)
+        isa_ = {}
+        for a_ in sorted(asmint.reachable_insns(entry, insns)):
+            for c_ in asmint.isa_classes(insns[a_]):
+                isa_.setdefault(c_, a_)
+        r['isa'] = isa_
         # definition / use facts (dead definitions, registers read before any definition)
         du_ = asmdu.analyse(entry, insns)
         r['du'] = {'dead': [(a_, t_) for a_, t_ in du_['dead_all']], 'dead_abi': [(a_, t_) for a_, t_ in du_['dead_abi']],
@@ -99,7 +105,7 @@ def _worker(arg):
         r['gprw0'] = sorted(w0)
         r['callees0'] = sorted(c for c in cl if c)
         # map interesting addresses to source lines
-        addrs = set(e['a'] for e in r['exits']) | set(s['a'] for s in r['stores']) | set(r['assumed']) | set(c_[0] for c_ in cu) | set(t_[0] for t_ in th_) | set(x_[0] for x_ in r['du']['dead']) | set(x_[0] for x_ in r['du']['dead_abi']) | set(x_[0] for x_ in r['du']['uninit']) | \
+        addrs = set(e['a'] for e in r['exits']) | set(s['a'] for s in r['stores']) | set(r['assumed']) | set(c_[0] for c_ in cu) | set(t_[0] for t_ in th_) | set(isa_.values()) | set(x_[0] for x_ in r['du']['dead']) | set(x_[0] for x_ in r['du']['dead_abi']) | set(x_[0] for x_ in r['du']['uninit']) | \
             set(i[1] for i in r['issues'] if isinstance(i[1], int)) | set(x[0] for x in r['special']) | {entry}
         if lt is None:
             lt = _line_table(obj)
